@@ -22,7 +22,7 @@ From TucModel Require Import Base.Bytes Base.ListX Model.Bounds Spec.Resolve Pro
   Model.CutBytes Spec.BytesMode Tie.Gen_cut_bytes Tie.Bridge_cut_bytes
   Spec.Fields Proofs.ScanSplit Tie.RsScan Tie.Gen_fill_fields Tie.Bridge_fill_fields Tie.Gen_compress_delimiter Tie.Bridge_compress_delimiter
   Proofs.C01More Tie.Gen_trim Tie.Bridge_trim
-  Tie.Gen_fb_try_from Tie.Bridge_fb_try_from
+  Tie.Gen_fb_try_from Tie.Bridge_fb_try_from Tie.Gen_print_field Tie.Bridge_print_field Tie.Gen_print_bof Tie.Bridge_print_bof
   Proofs.C06 Proofs.PlainMulti Tie.RsCut Tie.Gen_cut_str Tie.Bridge_cut_str
   Model.Utf8 Model.CutLines Proofs.C05 Proofs.C03Full Proofs.C05Full Tie.RsLines Tie.Gen_read_and_cut_lines Tie.Bridge_read_and_cut_lines
   Proofs.C12 Proofs.C16 Tie.Gen_fill_regex Tie.Bridge_fill_regex Tie.Gen_trim_regex Tie.Bridge_trim_regex Tie.Gen_compress_regex Tie.Bridge_compress_regex
@@ -437,7 +437,20 @@ Theorem tie_C07_general_path : forall (o : opt) (line0 : bytes) (ms : list mtch)
   of_rres_cut (cut_str o line0) (gen_cut_str line0 o fields0 buf0 [o_eol o]).
 Proof. exact tie_cut_str_chars. Qed.
 
+(** C03/C04 over the translated step of the -M path: at every delimiter, EOL and chunk end [print_bof]
+    writes what the model's [print_bof] writes for the piece of the chunk it is given and moves past exactly
+    the items the model consumes - so a field is printed the same way whether it arrives whole or in pieces
+    exactly when the model says so (which is what C04's theorems are about) *)
+Theorem tie_C04_print_bof_step : forall (g : gsopt) (i : nat) (curr : Z) (chunk : bytes) (a b : nat) (trunc complete : bool),
+  Z.of_nat i + 2 <= usize_max -> (a <= b)%nat -> (b <= length chunk)%nat ->
+  (forall bd, pending (skipn i (items (gs_bounds g))) = Some bd -> matches bd curr <> None) ->
+  gen_print_bof g (Z.of_nat i) curr chunk (Z.of_nat a) (Z.of_nat b) trunc complete
+  = let '(out, its') := print_bof (so_of g) (skipn i (items (gs_bounds g))) curr (slice chunk a b) trunc complete in
+    Ret (Some (Z.of_nat (i + (length (skipn i (items (gs_bounds g))) - length its'))), out).
+Proof. intros g i curr chunk a b trunc complete H1 H2 H3 H4. exact (tie_print_bof g i curr chunk a b trunc complete H1 H2 H3 H4). Qed.
+
 Print Assumptions tie_try_into_range_spec.
+Print Assumptions tie_C04_print_bof_step.
 Print Assumptions tie_C07_general_path.
 Print Assumptions tie_C16_general_path.
 Print Assumptions tie_C01_record_as_a_function_of_its_fields.
